@@ -720,10 +720,10 @@ LEVEL_TEXT = ('Lean theorems over the reader/construct model of parse_v2 for ALL
               'files, malformed files, parse sequences (incl. histories in which earlier parses ended in an exception) and the public kevents() '
               'entry point; code-only oracles over histories on one PyKdebugParser and over dumps longer than every block size the reader '
               'requests (read-size probing, tools/kdv/readprobe.py).'
-              " TRANSLATION TIE: the source text of parse / parse_v2 / parse_v3 (to the end of its chunk loop) / seek_until / set_thread_map is translated on every run (tools/gen_pyir_rd.py, pure ast) into the Python-subset IR of Model/PyIRRd (statements over the model's reader: read, while/for/break/raise/yield, bytes slices and comparisons, construct parsers as primitives; big-step interpreter); source_is_expected_ir: the generated program is the one of Spec/PyIRRdExpected; parse_is_interpreted_source: for EVERY byte string and prior state the model's parse IS that program run by the interpreter (+ the hand-modelled tail of parse_v3), with the same read calls; per piece: set_thread_map_ir_eq_model, parse_dispatch_ir_eq_model, parse_v2_ir_eq_model.")
+              " TRANSLATION TIE: the source text of parse / parse_v2 / parse_v3 (whole, incl. the additional-data blocks and the log loop) / seek_until / set_thread_map is translated on every run (tools/gen_pyir_rd.py, pure ast) into the Python-subset IR of Model/PyIRRd (statements over the model's reader: read, while/for/break/raise/yield, bytes slices and comparisons, construct parsers as primitives; big-step interpreter); source_is_expected_ir: the generated program is the one of Spec/PyIRRdExpected; parse_is_interpreted_source: for EVERY byte string and prior state the model's parse IS that program run by the interpreter, with the same read calls; per piece: set_thread_map_ir_eq_model, parse_dispatch_ir_eq_model, parse_v2_ir_eq_model.")
 LEVEL_NOTE = ('Partial: v2_events_partial carries the hypothesis "no records, or first record byte != 0" — without it the real '
               'code loses or misaligns records (known finding K1, reproduced on model and code every run). Trusted: Lean kernel, '
               'Model/Construct + Model/Reader as models of construct/BytesIO (diffed, not verified), Spec.encodeV2 as the meaning '
               'of "version-2 dump".'
-              ' The hand model of the readers is no longer trusted by itself: it is proved equal to the interpreted source (trusted instead: translator tools/gen_pyir_rd.py and interpreter Model/PyIRRd, both tested against CPython by the sections *-ir; the construct parsers as primitives; the tail of parse_v3).')
+              ' The hand model of the readers is no longer trusted by itself: it is proved equal to the interpreted source (trusted instead: translator tools/gen_pyir_rd.py and interpreter Model/PyIRRd, both tested against CPython by the sections *-ir; the construct parsers, plistlib.loads and OsLogEvent.from_raw_log_event as primitives / parameters).')
 TECHNIQUE = 'Lean 4 proof (parser/encoder round trip) + differential correspondence + translation validation (source text -> IR, proved equal to the model)'
